@@ -291,6 +291,8 @@ def run_c02(ctx):
     for s in rnd2:
         s['sid'] = 'e' + s['sid']
     rnd += rnd2
+    for s in rnd[:8]:
+        s['run'] = {'api': 'packed'}        # plus two sections packed the ISO way (the tail of one behind the pointer_field of the next)
     return pipeline(
         ctx, 'Mon_C02', 'demux', scs + rnd, drift_fn=demux_drift_fn(scs), more=[acc_group(scs + rnd, 800 if quick else 30000, ctx.seed)],
         rule='scenario = well-formed transport stream (units with byte layouts + packetisation + interleaving); TLC-generated: one per transition of the '
